@@ -7,7 +7,12 @@ PROPS = "RotoV.Props.C04"
 
 def search(ctx):
     # a broken tie/proof: hunt for a concrete (script signature, Rust type) pair
-    # on which the real gate departs from the documented mapping
+    # — or history of requests on one package — on which the real gate departs
+    # from the documented mapping. The boundary stream of the ordinary run
+    # comes first and usually has one already; the bigger run is for the rest.
+    if ctx.impl_violations:
+        ctx.log(f"search: the correspondence run already holds {len(ctx.impl_violations)} concrete failing input(s)")
+        return
     if ctx.build_harness("c04"):
         ctx.harness("c04", ["run", ctx.seed + 7919, "thorough"], timeout=3000, name="search:c04")
 
@@ -27,15 +32,27 @@ def run(ctx):
         "(the model's RustTy is the registry's description tree)",
         "TypeInfo.WF: the language's reserved global type names are not host-registered types (registration refuses them, C18)",
         "modelled, not verified: check_args / get_function are hand-written models whose source shape the translator asserts "
-        "(func! arities, slice-pattern arity test, step order of Module::get_function) and which the correspondence run ties to the code",
+        "(func! arities, slice-pattern arity test; every gate step of Module::get_function an unconditional top-level statement in "
+        "order; the fields of self it mentions / borrows mutably / calls methods on) and which the correspondence run ties to the code",
+        "TypeInfo::resolve only path-compresses (the package state a request leaves is the state it found); "
+        "derived PartialEq on Type/TypeName/ResolvedName/ScopeRef/Identifier is field-by-field equality",
     ]
     return ctx.finish(
         level="proof",
-        rule="pairs (script function/filtermap/test signature, requested Rust fn type): for each of 8 targets per script out of a "
-             "macro-generated family of 1639 Rust fn types (177 boundary types: 20 leaves x Option/List/Result/Verdict to depth 2 "
-             "+ depth 3, arity 0..7) the true signature and 4-6 near misses (one leaf / nesting / constructor / argument order / "
-             "arity / parameter order / return / Roto-only type changed), each asked under its target, same-arity family members, "
-             "unknown and generated-helper names; a class is distinct by (derivation label, outcome kind, mismatch class, arity)",
+        rule="requests (script function/filtermap/test signature, requested Rust fn type) made in histories on one package: for each "
+             "of 8 targets per script out of a macro-generated family of 1639 Rust fn types (177 boundary types: 20 leaves x "
+             "Option/List/Result/Verdict to depth 2 + depth 3, arity 0..7) the true signature and 4-6 near misses (one leaf / nesting / "
+             "constructor / argument order / arity +-1 / k parameters appended or dropped / parameter order / return / Roto-only type "
+             "changed / primitive replaced by the module-registered type of the same identifier), each asked under its target, "
+             "same-arity family members, the fn() and one-parameter prefixes, the neighbouring function's true type, the primitive a "
+             "module-registered type is named like, unknown and generated-helper names. Scripts are compiled in 4 host environments "
+             "(Val<Foo>/Val<Bar> registered globally or in modules as foo.u32, foo.String, net.i64, foo.Option, foo.bar.bool) and may "
+             "re-declare reserved names (record i64 {..}, enum Option[T] {..}: pkg.i64, pkg.Option[u32]); the first 12 scripts of a "
+             "run are the boundary stream (one per class: 4 re-declared primitive names x record/enum rotating with the seed, 3 "
+             "re-declared constructors, 3 module environments, 2 one-sided-arity scripts). Every request of a script is made three "
+             "times on the same package (in order, in reverse order, in order again) and judged against the same stateless oracle; a "
+             "wrong answer is re-run on fresh packages to find the shortest history that produces it. A class is distinct by "
+             "(derivation label, outcome kind, mismatch class, arity), plus (round, true/wrong, label) for repeated requests",
         search=search,
     )
 
@@ -47,7 +64,11 @@ def replay(ctx, data):
     if not ctx.build_harness("c04"):
         return 1
     inp = data["input"]
-    print(f"function : {inp.get('function')}\nrequest  : get_function::<{inp.get('rust_type')}>({inp.get('name')!r})\n"
+    hist = inp.get("history") or []
+    print(f"function : {inp.get('function')}  (host environment {inp.get('env', 0)})")
+    if hist:
+        print(f"history  : {len(hist)} earlier request(s) on the same package ({inp.get('history_kind')})")
+    print(f"request  : get_function::<{inp.get('rust_type')}>({inp.get('name')!r})\n"
           f"expected : {inp.get('expected')}\nrecorded : {inp.get('real')}")
     rep = ctx.harness("c04", ["replay", json.dumps(inp)])
     bad = bool(rep and rep.get("impl_violations"))
